@@ -343,3 +343,58 @@ Definition spec_class (m : msg) : cls :=
   | MReadDevIdRsp _ _ _ _ _ => ReadDeviceInformationResponse
   | MException _ _ => ExceptionResponse
   end.
+
+(* ---- PDU sizes ----------------------------------------------------------------------------------
+   [pdu_size m] is the number of bytes of [spec_pdu m] (proved in proofs/Pdu_size_proofs.v);
+   [spec_limits m] are the quantity / byte-count limits section 6 states for each function code
+   (they are what keeps a PDU within 253 bytes = 256-byte serial ADU minus address and CRC). *)
+
+Definition pdu_size (m : msg) : Z :=
+  match m with
+  | MReadCoilsReq _ _ | MReadDiscreteReq _ _ | MReadHoldingReq _ _ | MReadInputReq _ _
+  | MWriteCoilReq _ _ | MWriteRegReq _ _ | MWriteCoilRsp _ _ | MWriteRegRsp _ _
+  | MWriteCoilsRsp _ _ | MWriteRegsRsp _ _ | MCommEventCounterRsp _ _ => 5
+  | MReadExcStatusReq | MCommEventCounterReq | MCommEventLogReq | MReportSlaveIdReq => 1
+  | MDiagReq _ d | MDiagRsp _ d => 3 + 2 * len d
+  | MWriteCoilsReq _ cs => 6 + bit_byte_count (len cs)
+  | MWriteRegsReq _ rs => 6 + 2 * len rs
+  | MReadFileReq ss => 2 + 7 * len ss
+  | MWriteFileReq ss | MWriteFileRsp ss => 2 + zsum (map sub_write_size ss)
+  | MMaskWriteReq _ _ _ | MMaskWriteRsp _ _ _ => 7
+  | MReadWriteRegsReq _ _ _ ws => 10 + 2 * len ws
+  | MReadFifoReq _ => 3
+  | MReadDevIdReq _ _ => 4
+  | MReadCoilsRsp cs | MReadDiscreteRsp cs => 2 + bit_byte_count (len cs)
+  | MReadHoldingRsp rs | MReadInputRsp rs | MReadWriteRegsRsp rs => 2 + 2 * len rs
+  | MReadExcStatusRsp _ => 2
+  | MCommEventLogRsp _ _ _ evs => 8 + len evs
+  | MReportSlaveIdRsp id _ => 3 + len id
+  | MReadFileRsp ds => 2 + zsum (map sub_resp_size ds)
+  | MReadFifoRsp rs => 5 + 2 * len rs
+  | MReadDevIdRsp _ _ _ _ objs => 7 + zsum (map (fun o => 2 + len (snd o)) objs)
+  | MException _ _ => 2
+  end.
+
+Definition within (lo n hi : Z) : bool := (lo <=? n) && (n <=? hi).
+
+Definition spec_limits (m : msg) : bool :=
+  match m with
+  | MReadCoilsReq _ q | MReadDiscreteReq _ q => within 1 q 2000          (* 6.1, 6.2 *)
+  | MReadHoldingReq _ q | MReadInputReq _ q => within 1 q 125             (* 6.3, 6.4 *)
+  | MReadCoilsRsp cs | MReadDiscreteRsp cs => within 1 (len cs) 2000
+  | MReadHoldingRsp rs | MReadInputRsp rs | MReadWriteRegsRsp rs => within 1 (len rs) 125
+  | MWriteCoilsReq _ cs => within 1 (len cs) 1968                          (* 6.11: 0x07B0 *)
+  | MWriteCoilsRsp _ q => within 1 q 1968
+  | MWriteRegsReq _ rs => within 1 (len rs) 123                            (* 6.12: 0x7B *)
+  | MWriteRegsRsp _ q => within 1 q 123
+  | MReadWriteRegsReq _ rq _ ws => within 1 rq 125 && within 1 (len ws) 121   (* 6.17 *)
+  | MDiagReq _ d | MDiagRsp _ d => within 0 (len d) 125                    (* N x 2 bytes of data in a 253-byte PDU *)
+  | MCommEventLogRsp _ _ _ evs => within 0 (len evs) 64                    (* 6.10: 0..64 events *)
+  | MReportSlaveIdRsp id _ => within 0 (len id) 250
+  | MReadFileReq ss => within 1 (len ss) 35                                (* 6.14: byte count 0x07..0xF5 *)
+  | MReadFileRsp ds => within 7 (zsum (map sub_resp_size ds)) 245          (* 6.14: resp. data length 0x07..0xF5 *)
+  | MWriteFileReq ss | MWriteFileRsp ss => within 9 (zsum (map sub_write_size ss)) 251   (* 6.15: 0x09..0xFB *)
+  | MReadFifoRsp rs => within 0 (len rs) 31                                (* 6.18 *)
+  | MReadDevIdRsp _ _ _ _ objs => within 0 (zsum (map (fun o => 2 + len (snd o)) objs)) 246
+  | _ => true
+  end.
